@@ -324,6 +324,7 @@ class Interp:
         self.on_attr_read = None
         self.on_attr_store = None
         self.update_params_checks = []
+        self.loop_lengths = []             # (token, iteration-count axis) of the loops being interpreted
         self.stmt_hook = None
         self.top_log = []          # (why, function, node) for primary unknowns (not propagated ones)
         self.index_checks = []     # (node, ok) subscripts whose index and axis both had a named space
@@ -538,26 +539,35 @@ class Interp:
             it = self.eval(st.iter, fr)
             elem = self.iter_element(it, st.iter, fr)
             env0 = dict(fr.env)
-            for _ in range(2):
-                self.assign(st.target, elem, fr, st)
-                try:
-                    self.exec_block(st.body, fr)
-                except ReturnSignal:
-                    pass
-                except LoopSignal:
-                    pass
+            ln = it.length if isinstance(it, Lst) else (it.axes[0] if isinstance(it, Arr) and it.axes else UNK)
+            self.loop_lengths.append((object(), ln))
+            try:
+                for _ in range(2):
+                    self.assign(st.target, elem, fr, st)
+                    try:
+                        self.exec_block(st.body, fr)
+                    except ReturnSignal:
+                        pass
+                    except LoopSignal:
+                        pass
+            finally:
+                self.loop_lengths.pop()
             fr.env = join_env(env0, fr.env, prefer_b=True)
             return
         if isinstance(st, ast.While):
             env0 = dict(fr.env)
-            for _ in range(2):
-                self.eval(st.test, fr)
-                try:
-                    self.exec_block(st.body, fr)
-                except ReturnSignal:
-                    pass
-                except LoopSignal:
-                    pass
+            self.loop_lengths.append((object(), UNK))
+            try:
+                for _ in range(2):
+                    self.eval(st.test, fr)
+                    try:
+                        self.exec_block(st.body, fr)
+                    except ReturnSignal:
+                        pass
+                    except LoopSignal:
+                        pass
+            finally:
+                self.loop_lengths.pop()
             fr.env = join_env(env0, fr.env, prefer_b=True)
             return
         if isinstance(st, (ast.Break, ast.Continue)):
